@@ -135,6 +135,19 @@ pub struct FaultSpec {
 	pub global_index: Option<u32>,
 }
 
+#[derive(Default, Clone, Debug)]
+pub struct PoisModel {
+	pub enabled: bool,
+	/// lock id -> route of the panicking exclusive hold that makes poisoning mandatory
+	pub must: std::collections::HashMap<LockId, String>,
+	/// lock ids that may be poisoned (any panic during any hold since the last clear)
+	pub may: std::collections::HashSet<LockId>,
+	/// ids of Poisonable leaves
+	pub tracked: std::collections::HashSet<LockId>,
+	pub checks: u64,
+	pub poisoned_seen: u64,
+}
+
 #[derive(Clone, Debug)]
 pub struct FaultInfo {
 	pub lock: LockId,
@@ -284,6 +297,8 @@ pub struct Inner {
 	pub group: Vec<u32>,
 	/// what the faulting thread held when the (first) fault fired, and on which lock/op
 	pub fault_info: Option<FaultInfo>,
+	/// C10 PoisonModel (shared by all threads of the episode)
+	pub pois: PoisModel,
 	pub pct_points: Vec<u64>,
 	pub deadlock_witness: String,
 }
@@ -385,6 +400,7 @@ impl World {
 				call_counter: 0,
 				group: vec![0],
 				fault_info: None,
+				pois: PoisModel::default(),
 				pct_points,
 				deadlock_witness: String::new(),
 			}),
@@ -661,6 +677,11 @@ impl World {
 		let res = match op {
 			Op::Unlock => {
 				release(&mut g, tid, lock, mode);
+				// a second scheduling point right after the release took effect: whatever the
+				// caller still does after unlocking (flag stores...) can be overtaken
+				if g.exec == ExecMode::Baton && !std::thread::panicking() {
+					g = self.sched_point(tid, g);
+				}
 				true
 			}
 			Op::Try => {
@@ -1089,6 +1110,71 @@ impl World {
 			g.sections[lock as usize].remove(p);
 		}
 		log(&mut g, tid, EvKind::SectionExit, lock, mode as u32);
+	}
+
+	// ------------------------------------------------------------------ poison model (C10)
+
+	pub fn pois_enable(&self, tracked: &[LockId]) {
+		let mut g = self.g();
+		g.pois.enabled = true;
+		for t in tracked {
+			g.pois.tracked.insert(*t);
+		}
+	}
+
+	/// verdict observed at a Poisonable position of an acquisition
+	pub fn pois_check(&self, lock: LockId, verdict: Option<bool>, what: &str) {
+		let mut g = self.g();
+		if !g.pois.enabled || !g.pois.tracked.contains(&lock) {
+			return;
+		}
+		g.pois.checks += 1;
+		match verdict {
+			None => push_violation(&mut g, "C10", "no_poison_verdict", format!("{what}: poisonable lock {lock} carries no Ok/Err verdict")),
+			Some(p) => {
+				if p {
+					g.pois.poisoned_seen += 1;
+				}
+				if let (Some(route), false) = (g.pois.must.get(&lock).cloned(), p) {
+					push_violation(
+						&mut g,
+						"C10",
+						"not_poisoned_after_panic",
+						format!("route={route}|{what}: lock {lock} reports Ok although a panic unwound during an exclusive hold via {route}"),
+					);
+				}
+				if p && !g.pois.may.contains(&lock) {
+					push_violation(
+						&mut g,
+						"C10",
+						"spuriously_poisoned",
+						format!("{what}: lock {lock} reports Err but no panic happened during a hold since the last clear"),
+					);
+				}
+			}
+		}
+	}
+
+	/// a panic is about to unwind while `lock` is held (exclusively or not) via `route`
+	pub fn pois_panic(&self, lock: LockId, exclusive: bool, route: &str) {
+		let mut g = self.g();
+		if !g.pois.enabled || !g.pois.tracked.contains(&lock) {
+			return;
+		}
+		g.pois.may.insert(lock);
+		if exclusive {
+			g.pois.must.entry(lock).or_insert_with(|| route.to_string());
+		}
+	}
+
+	pub fn pois_clear(&self, lock: LockId) {
+		let mut g = self.g();
+		g.pois.must.remove(&lock);
+		g.pois.may.remove(&lock);
+	}
+
+	pub fn pois_snapshot(&self) -> PoisModel {
+		self.g().pois.clone()
 	}
 
 	pub fn shadow(&self, lock: LockId) -> u64 {
